@@ -34,6 +34,16 @@ def dir_pair(draw, recipe):
         v = X.mul(draw(st.sampled_from(KS)), u)
     elif recipe == "antiparallel":
         v = X.mul(-draw(st.sampled_from(KS)), u)
+    elif recipe == "near-parallel":
+        # long directions a quarter lattice step apart: within about one degree, yet sin(angle) > 1e-3
+        k = draw(st.sampled_from((F(2), F(4), F(8), F(3))))
+        base = draw(st.sampled_from(gen.AXIS_DIRS))
+        u = X.mul(k, tuple(F(c) for c in base))
+        i = draw(st.integers(0, 2))
+        dv = [F(0), F(0), F(0)]
+        dv[i] = draw(st.sampled_from((F(1, 4), F(-1, 4), F(1, 8), F(-1, 2))))
+        v = X.add(X.mul(draw(st.sampled_from((F(1), F(1, 2), F(-1), F(2)))), u), tuple(dv))
+        assume(not X.is_zero(X.cross(u, v)))
     elif recipe == "perpendicular":
         w = draw(gen.direction(3))
         v = X.cross(u, w)
@@ -131,6 +141,6 @@ def strata(tier):
     per = 200 if tier == "quick" else 6000
     out = []
     for ka, kb in COMBOS:
-        for rec in ("parallel", "antiparallel", "perpendicular", "generic"):
+        for rec in ("parallel", "antiparallel", "perpendicular", "near-parallel", "generic"):
             out.append(Stratum("%s-%s/%s" % (ka, kb, rec), "hyp", case_for(ka, kb, rec), per))
     return out
